@@ -244,8 +244,10 @@ func (r *recorder) Push(target string, opts *http.PushOptions) error {
 // an error matching [http.ErrNotSupported]. See [http.Hijacker] for more details.
 func (r *recorder) Hijack() (net.Conn, *bufio.ReadWriter, error) {
 	if hijacker, ok := r.ResponseWriter.(http.Hijacker); ok {
-		r.hijacked = true
-		return hijacker.Hijack()
+		conn, rw, err := hijacker.Hijack()
+		// The connection is only taken over when the underlying writer says so.
+		r.hijacked = err == nil
+		return conn, rw, err
 	}
 	return nil, nil, ErrNotSupported()
 }
